@@ -465,6 +465,70 @@ fn run_sweep(t: &[&str], o: &mut Oracle) -> String {
     }
 }
 
+fn kind_of_char(k: &str) -> K {
+    match k {
+        "5" => K::I5,
+        "6" => K::I6,
+        "p" => K::I6Dp,
+        "d" => K::I664,
+        "x" => K::I6Ex,
+        "m" => K::I6More,
+        "7" => K::I7,
+        _ => panic!("bad kind"),
+    }
+}
+
+fn kind_char(k: K) -> &'static str {
+    match k {
+        K::I5 => "5",
+        K::I6 => "6",
+        K::I6Dp => "p",
+        K::I664 => "d",
+        K::I6Ex => "x",
+        K::I6More => "m",
+        K::I7 => "7",
+    }
+}
+
+/// `hc`: every tuple of values for the count fields
+fn run_counts(t: &[&str], o: &mut Oracle) -> String {
+    let kc = t[0];
+    let k = kind_of_char(kc);
+    let pre = parse_hex(t[1]).expect("hex");
+    let suf = parse_hex(t[2]).expect("hex");
+    let vals: Vec<i32> = t[3].split(',').map(|x| x.parse().expect("value")).collect();
+    let nf = if k == K::I5 { 2 } else { 4 };
+    let encs: Vec<Vec<u8>> = vals.iter().map(|&v| enc_int(k, v)).collect();
+    let n = vals.len() as u64;
+    let r = catch(|| {
+        let mut h = FNV_OFFSET;
+        let mut buf: Vec<u8> = vec![];
+        let total = n.pow(nf);
+        for c in 0..total {
+            buf.clear();
+            buf.extend_from_slice(&pre);
+            for j in 0..nf {
+                buf.extend_from_slice(&encs[((c / n.pow(nf - 1 - j)) % n) as usize]);
+            }
+            buf.extend_from_slice(&suf);
+            let s = info_result(kc, &buf, o);
+            h = fnv_bytes(h, s.as_bytes());
+            h = fnv_byte(h, 10);
+        }
+        (h, total)
+    });
+    match r {
+        Ok((h, cnt)) => {
+            o.add("count_tuples_swept", cnt);
+            format!("h {}", h)
+        }
+        Err(msg) => {
+            o.fail("C18/parse-panic", format!("{} request=hc {}", msg, t.join(" ")));
+            "panic".to_string()
+        }
+    }
+}
+
 struct R;
 
 impl Runner for R {
@@ -472,6 +536,7 @@ impl Runner for R {
         match t {
             ["p", h] => run_parse(&parse_hex(h).expect("hex"), o),
             ["hs", rest @ ..] if rest.len() == 5 => run_sweep(rest, o),
+            ["hc", rest @ ..] if rest.len() == 4 => run_counts(rest, o),
             [op @ ("m" | "mf" | "mh" | "mfh"), rest @ ..] if !rest.is_empty() => run_merge(op, rest, o),
             _ => "bad-op".to_string(),
         }
@@ -671,13 +736,23 @@ fn gen_text(rng: &mut Rng, max_chars: u64) -> Vec<u8> {
     v
 }
 
+const SHARED_NAMES: &[&[u8]] = &[b"(connecting)", b"nameless tee", b"x", b""];
+
 fn gen_client(rng: &mut Rng, uniq: usize, k: K) -> GClient {
-    let mut name = format!("p{}", uniq).into_bytes();
-    name.extend(gen_text(rng, 4));
+    // a third of the clients share their name with others ("(connecting)", "nameless tee"); they
+    // stay pairwise different through the country, whose order is unrelated to the wire order
+    let shared = rng.chance(1, 3);
+    let name = if shared {
+        rng.pick(SHARED_NAMES).to_vec()
+    } else {
+        let mut name = format!("p{}", uniq).into_bytes();
+        name.extend(gen_text(rng, 4));
+        name
+    };
     GClient {
         name,
-        clan: gen_text(rng, 5),
-        country: if rng.chance(1, 4) { -1 } else { rng.range(0, 900) as i32 },
+        clan: if shared && rng.chance(1, 2) { b"clan".to_vec() } else { gen_text(rng, 5) },
+        country: if shared { ((uniq * 37 + 11) % 256) as i32 + 1000 } else if rng.chance(1, 4) { -1 } else { rng.range(0, 900) as i32 },
         score: if rng.chance(1, 8) { rng.next() as i32 } else { rng.range(-5, 500) as i32 },
         is_player: if k == K::I7 { rng.below(4) as i32 } else { rng.below(2) as i32 },
     }
@@ -711,7 +786,9 @@ const INT_TEXTS: &[&[u8]] = &[
     b"0", b"-0", b"+0", b"1", b"-1", b"+1", b"2", b"15", b"16", b"17", b"23", b"24", b"25", b"62", b"63", b"64", b"65", b"66", b"127", b"128",
     b"255", b"256", b"65535", b"65536", b"2147483646", b"2147483647", b"2147483648", b"+2147483647", b"+2147483648", b"-2147483647",
     b"-2147483648", b"-2147483649", b"4294967295", b"4294967296", b"4294967360", b"-4294967232", b"99999999999999999999",
-    b"-99999999999999999999", b"18446744073709551680", b"", b"-", b"+", b"+-1", b"-+1", b"--1", b"00064", b"-00064", b"+00064",
+    b"-99999999999999999999", b"18446744073709551680", b"-4294967295", b"-4294967296", b"-4294967297", b"9223372036854775807",
+    b"9223372036854775808", b"-9223372036854775808", b"-9223372036854775809", b"18446744073709551615", b"18446744073709551616",
+    b"2147483649", b"-2147483650", b"4294967294", b"4294967297", b"", b"-", b"+", b"+-1", b"-+1", b"--1", b"00064", b"-00064", b"+00064",
     b"0000000000000000000000064", b" 64", b"64 ", b"6 4", b"0x40", b"64.0", b"1e2", b"\xef\xbc\x96\xef\xbc\x94", b"\xd9\xa6\xd9\xa4", b"6\xff4",
     b"\xff", b"\xc0\xb1", b"64a", b"a", b"1_0",
 ];
@@ -790,11 +867,6 @@ fn part_tok(k: K, payload: &[u8]) -> String {
 fn family(rng: &mut Rng, ex: bool, sizes: &[usize], nos: &[i32]) -> Vec<String> {
     let total: usize = sizes.iter().sum();
     let k = if ex { K::I6Ex } else { K::I664 };
-    let mut g = gen_info(rng, k, total as i32);
-    if !ex {
-        g.max_clients = g.max_clients.min(64);
-        g.max_players = g.max_players.min(g.max_clients);
-    }
     let clients: Vec<GClient> = (0..total).map(|u| gen_client(rng, u, k)).collect();
     // shuffle so that the sort order is unrelated to the wire order
     let mut order: Vec<usize> = (0..total).collect();
@@ -803,6 +875,19 @@ fn family(rng: &mut Rng, ex: bool, sizes: &[usize], nos: &[i32]) -> Vec<String> 
         order.swap(i, j);
     }
     let clients: Vec<GClient> = order.iter().map(|&i| clients[i].clone()).collect();
+    family_of(rng, ex, sizes, nos, &clients)
+}
+
+/// The parts of one info whose clients are given in wire order (`sizes[i]` of them in part `i`).
+fn family_of(rng: &mut Rng, ex: bool, sizes: &[usize], nos: &[i32], clients: &[GClient]) -> Vec<String> {
+    let total: usize = sizes.iter().sum();
+    assert_eq!(total, clients.len());
+    let k = if ex { K::I6Ex } else { K::I664 };
+    let mut g = gen_info(rng, k, total as i32);
+    if !ex {
+        g.max_clients = g.max_clients.min(64);
+        g.max_players = g.max_players.min(g.max_clients);
+    }
     let mut out = vec![];
     let mut at = 0usize;
     for (pi, &sz) in sizes.iter().enumerate() {
@@ -816,6 +901,43 @@ fn family(rng: &mut Rng, ex: bool, sizes: &[usize], nos: &[i32]) -> Vec<String> 
         at += sz;
     }
     out
+}
+
+/// A group of clients that agree in the first `depth` sort fields (name, clan, country, score)
+/// and differ in the next one (for depth 4: in the flags, so there are only two of them). They are
+/// returned in *descending* order, so that merging the parts in ascending order never happens to
+/// produce the sorted arrangement.
+fn tie_group(rng: &mut Rng, depth: usize, n: usize, tag: usize) -> Vec<GClient> {
+    let base = GClient {
+        name: (*rng.pick(&[&b"(connecting)"[..], &b"nameless tee"[..], &b"tie"[..]])).to_vec(),
+        clan: format!("c{}", tag).into_bytes(),
+        country: 40 + tag as i32,
+        score: 7,
+        is_player: 1,
+    };
+    let n = if depth >= 4 { 2 } else { n };
+    (0..n)
+        .rev()
+        .map(|m| {
+            let mut c = base.clone();
+            let d = m as i32;
+            match depth {
+                1 => {
+                    c.clan = format!("k{}", m).into_bytes();
+                    c.country = rng.range(-1, 5) as i32;
+                    c.score = rng.range(-3, 3) as i32;
+                }
+                2 => {
+                    c.country = 100 + d;
+                    c.score = rng.range(-3, 3) as i32;
+                }
+                3 => c.score = 10 * d - 5,
+                // flags are compared last: spectator (1) sorts after player (0); wire `is_player`
+                _ => c.is_player = if m == 0 { 1 } else { 0 },
+            }
+            c
+        })
+        .collect()
 }
 
 fn split_sizes(rng: &mut Rng, total: usize, nparts: usize, ex: bool) -> Vec<usize> {
@@ -1094,12 +1216,43 @@ impl Domain for D {
         writeln!(w, "hs 6 {} {} {} {}", to_hex(name_pre), to_hex(b"\0\00\01\01\0"), to_hex(&all[1..]), 2).unwrap();
         writeln!(w, "hs 6 {} {} {} {}", to_hex(b"7\0v\0n\0m\0g\00\01\01\01\01\0a\0"), to_hex(b"\00\01\01\0"), to_hex(&all[1..]), 2).unwrap();
         let utf_alpha: Vec<u8> = vec![0x41, 0x7f, 0x80, 0x8f, 0x90, 0x9f, 0xa0, 0xbf, 0xc0, 0xc1, 0xc2, 0xdf, 0xe0, 0xe1, 0xec, 0xed, 0xee, 0xef, 0xf0, 0xf1, 0xf3, 0xf4, 0xf5, 0xff];
-        writeln!(w, "hs 6 {} {} {} {}", to_hex(name_pre), to_hex(b"\0\00\01\01\0"), to_hex(&utf_alpha), if thorough { 5 } else { 3 }).unwrap();
+        writeln!(w, "hs 6 {} {} {} {}", to_hex(name_pre), to_hex(b"\0\00\01\01\0"), to_hex(&utf_alpha), if thorough { 4 } else { 3 }).unwrap();
+        if thorough {
+            // length 5, one request per first byte (keeps every request well below the watchdog)
+            for &b0 in &utf_alpha {
+                let mut pre = name_pre.to_vec();
+                pre.push(b0);
+                writeln!(w, "hs 6 {} {} {} {}", to_hex(&pre), to_hex(b"\0\00\01\01\0"), to_hex(&utf_alpha), 4).unwrap();
+            }
+        }
         // capacity: 13/14/15 ASCII bytes, then every string over a multi-byte alphabet
         for fill in [9usize, 13, 14, 15] {
             let mut pre = name_pre.to_vec();
             pre.extend(vec![b'x'; fill]);
             writeln!(w, "hs 6 {} {} {} {}", to_hex(&pre), to_hex(b"\0\00\01\01\0"), to_hex(b"a\xc3\xa9\xe2\x82\xac\xf0\x9f\x98\x80"), if thorough { 6 } else { 4 }).unwrap();
+        }
+
+        // ---- the four count fields jointly (every tuple over the boundary values), per kind
+        {
+            let vals: &[i32] = if thorough {
+                &[-0x80000000, -2, -1, 0, 1, 2, 3, 15, 16, 17, 63, 64, 65, 0x7ffffffe, 0x7fffffff]
+            } else {
+                &[-1, 0, 1, 2, 15, 16, 17, 63, 64, 65, 0x7fffffff]
+            };
+            let vs: Vec<String> = vals.iter().map(|v| v.to_string()).collect();
+            for &k in KINDS {
+                if k == K::I6More {
+                    continue;
+                }
+                for nc in [0usize, 2] {
+                    let g = gen_info(&mut rng, k, nc as i32);
+                    let clients: Vec<GClient> = (0..nc).map(|u| gen_client(&mut rng, u, k)).collect();
+                    let f = fields(k, &g, 0, 0, &clients);
+                    let first = f.iter().position(|x| x.1 == "num_players").unwrap();
+                    let last = f.iter().rposition(|x| x.1 == "max_clients" || x.1 == "max_players").unwrap();
+                    writeln!(w, "hc {} {} {} {}", kind_char(k), to_hex(&flatten(&f[..first])), to_hex(&flatten(&f[last + 1..])), vs.join(",")).unwrap();
+                }
+            }
         }
 
         // =========================== merging ===========================
@@ -1118,6 +1271,83 @@ impl Domain for D {
                 // the complete ascending merge, explicitly (readable sample)
                 let steps: Vec<String> = (0..nparts).map(|x| x.to_string()).collect();
                 writeln!(w, "mf {} {} {}", parts.len(), parts.join(" "), steps.join(" ")).unwrap();
+            }
+        }
+        // clients that tie in a prefix of the sort key (same name / name+clan / name+clan+country /
+        // all but the flags), spread over different parts (for the extended version over different
+        // `iex+` packets, the main packet is always moved to the front): every permutation
+        // explicitly, then every step sequence up to parts+1 hashed
+        for depth in 1..=4usize {
+            for &ex in &[false, true] {
+                for &nparts in &[3usize, 4] {
+                    if !thorough && nparts == 4 && depth % 2 == 0 {
+                        continue;
+                    }
+                    let carriers = if ex { nparts - 1 } else { nparts };
+                    let group = tie_group(&mut rng, depth, carriers.min(3), depth);
+                    let mut per_part: Vec<Vec<GClient>> = vec![vec![]; nparts];
+                    // one filler per part, then the group members one per carrier part
+                    let mut uniq = 0usize;
+                    for pi in 0..nparts {
+                        for _ in 0..rng.below(2) + 1 {
+                            per_part[pi].push(gen_client(&mut rng, 500 + uniq, if ex { K::I6Ex } else { K::I664 }));
+                            uniq += 1;
+                        }
+                    }
+                    for (gi, c) in group.iter().enumerate() {
+                        let pi = if ex { 1 + gi % carriers } else { gi % carriers };
+                        let at = rng.below(per_part[pi].len() as u64 + 1) as usize;
+                        per_part[pi].insert(at, c.clone());
+                    }
+                    let sizes: Vec<usize> = per_part.iter().map(|v| v.len()).collect();
+                    let clients: Vec<GClient> = per_part.into_iter().flatten().collect();
+                    let nos = packet_nos(&mut rng, nparts, 63);
+                    let parts = family_of(&mut rng, ex, &sizes, &nos, &clients);
+                    let pre = format!("mf {} {}", parts.len(), parts.join(" "));
+                    // all permutations (Heap's algorithm)
+                    let mut perm: Vec<usize> = (0..nparts).collect();
+                    let mut c = vec![0usize; nparts];
+                    let emit = |perm: &Vec<usize>, w: &mut dyn Write| {
+                        let steps: Vec<String> = perm.iter().map(|x| x.to_string()).collect();
+                        writeln!(w, "{} {}", pre, steps.join(" ")).unwrap();
+                    };
+                    emit(&perm, w);
+                    let mut i = 0;
+                    while i < nparts {
+                        if c[i] < i {
+                            if i % 2 == 0 {
+                                perm.swap(0, i);
+                            } else {
+                                perm.swap(c[i], i);
+                            }
+                            emit(&perm, w);
+                            c[i] += 1;
+                            i = 0;
+                        } else {
+                            c[i] = 0;
+                            i += 1;
+                        }
+                    }
+                    writeln!(w, "mfh {} {} {}", parts.len(), parts.join(" "), nparts + 1).unwrap();
+                }
+            }
+        }
+        // the same tie groups inside one packet of the single-packet kinds
+        for depth in 1..=4usize {
+            for &k in &[K::I5, K::I6, K::I6Dp, K::I7] {
+                let mut clients = tie_group(&mut rng, if k == K::I5 { 3 } else { depth }, 3, depth);
+                if k == K::I5 {
+                    // only name and score exist
+                    for c in clients.iter_mut() {
+                        c.clan = vec![];
+                        c.country = -1;
+                        c.is_player = 0;
+                    }
+                }
+                clients.insert(1, gen_client(&mut rng, 900, k));
+                let g = gen_info(&mut rng, k, clients.len() as i32);
+                let h = header(k, &mut rng);
+                emit_p(w, &h, &flatten(&fields(k, &g, 0, 0, &clients)));
             }
         }
         // large families up to the maximum number of parts: sampled orders and repetition patterns
